@@ -61,6 +61,19 @@ def unpackH (b : Bytes) : PyM Nat :=
   | [lo, hi] => .ok (lo + 256 * hi)
   | _ => .error .structError
 
+/-- `struct.pack("<h", x)` : `struct.error` outside `-32768..32767` -/
+def packSH (x : Int) : PyM Bytes :=
+  if -32768 ≤ x ∧ x < 32768 then
+    let u := (x % 65536).toNat
+    .ok [u % 256, u / 256]
+  else .error .structError
+
+/-- `struct.unpack("<h", b)[0]` : `struct.error` unless `len(b) == 2` -/
+def unpackSH (b : Bytes) : PyM Int :=
+  match b with
+  | [lo, hi] => .ok (if lo + 256 * hi < 32768 then ((lo + 256 * hi : Nat) : Int) else ((lo + 256 * hi : Nat) : Int) - 65536)
+  | _ => .error .structError
+
 /-- little-endian 16-bit value of two bytes (no check) -/
 def le16 (lo hi : Nat) : Nat := lo + 256 * hi
 
